@@ -823,6 +823,112 @@ func replay(path string) int {
 }
 
 func selftest(args []string) int {
-	fmt.Println("selftest: not implemented yet")
+	if len(args) < 1 || args[0] != "determinism" {
+		die(2, "usage: htsverif selftest determinism [runs] [property...]")
+	}
+	runs := 64
+	var ids []string
+	for _, a := range args[1:] {
+		if n, err := strconv.Atoi(a); err == nil {
+			runs = n
+		} else {
+			ids = append(ids, a)
+		}
+	}
+	if len(ids) == 0 {
+		for id := range props {
+			ids = append(ids, id)
+		}
+		sort.Strings(ids)
+	}
+	b := prepare()
+	work := filepath.Join(verifDir, ".work", fmt.Sprintf("selftest-%d", os.Getpid()))
+	os.MkdirAll(work, 0o755)
+	defer os.RemoveAll(work)
+	known := loadKnown()
+	bad := 0
+	type cfg struct {
+		procs string
+		rep   int
+	}
+	var cfgs []cfg
+	for _, p := range []string{"1", "4", "16"} {
+		for r := 0; r < 2; r++ {
+			cfgs = append(cfgs, cfg{p, r})
+		}
+	}
+	for _, id := range ids {
+		var myKnown []knownFinding
+		for _, k := range known {
+			if k.Property == id {
+				myKnown = append(myKnown, k)
+			}
+		}
+		outs := make([]string, len(cfgs))
+		var wg sync.WaitGroup
+		var mu sync.Mutex
+		var firstErr error
+		for i, c := range cfgs {
+			wg.Add(1)
+			go func(i int, c cfg) {
+				defer wg.Done()
+				sig := filepath.Join(work, fmt.Sprintf("%s-%d.sigs", id, i))
+				job := map[string]interface{}{"property": id, "tier": "quick", "seed": uint64(7), "worker": 0, "workers": 1, "from": 0, "max_runs": runs,
+					"out": filepath.Join(work, fmt.Sprintf("%s-%d.json", id, i)), "sigs_out": sig, "known": myKnown, "recheck_every": 1 << 30}
+				os.Setenv("HTSV_COLLECT", "1")
+				old := os.Getenv("HTSV_GOMAXPROCS")
+				_ = old
+				jb, _ := json.Marshal(job)
+				jp := filepath.Join(work, fmt.Sprintf("%s-%d.job", id, i))
+				os.WriteFile(jp, jb, 0o644)
+				cmd := exec.Command(b.bin, "-test.run", "^TestWorker$", "-test.cpu", "1", "-test.timeout", "0")
+				cmd.Env = append(goEnv(), "HTSV_JOB="+jp, "GOMAXPROCS="+c.procs, "HTSV_COLLECT=1")
+				out, err := cmd.CombinedOutput()
+				sb, _ := os.ReadFile(sig)
+				mu.Lock()
+				outs[i] = string(sb)
+				if err != nil && crashSignature(string(out)) == "" && firstErr == nil {
+					firstErr = fmt.Errorf("%s (GOMAXPROCS=%s): %v\n%s", id, c.procs, err, tailOf(string(out), 2000))
+				}
+				mu.Unlock()
+			}(i, c)
+		}
+		wg.Wait()
+		if firstErr != nil {
+			fmt.Println("selftest: worker failed:", firstErr)
+			bad++
+			continue
+		}
+		ok := true
+		for i := 1; i < len(outs); i++ {
+			if outs[i] != outs[0] {
+				ok = false
+				a, bb := strings.Split(outs[0], "\n"), strings.Split(outs[i], "\n")
+				for k := 0; k < len(a) && k < len(bb); k++ {
+					if a[k] != bb[k] {
+						fmt.Printf("selftest: %s: process 0 (GOMAXPROCS=%s) and process %d (GOMAXPROCS=%s) differ at line %d: %q vs %q\n", id, cfgs[0].procs, i, cfgs[i].procs, k, a[k], bb[k])
+						break
+					}
+				}
+			}
+		}
+		n := strings.Count(outs[0], "\n")
+		if ok {
+			fmt.Printf("selftest: %s: %d runs x %d processes (GOMAXPROCS 1,4,16 x 2): identical run signatures\n", id, n, len(cfgs))
+		} else {
+			bad++
+		}
+	}
+	if bad > 0 {
+		fmt.Printf("selftest: determinism FAILED for %d properties\n", bad)
+		return 2
+	}
 	return 0
+}
+
+func tailOf(s string, n int) string {
+	if len(s) > n {
+		return s[len(s)-n:]
+	}
+	return s
 }
